@@ -31,6 +31,7 @@
 #include "ola/testing/MockUDPSocket.h"
 #include "libs/acn/DMPE131Inflator.h"
 #include "libs/acn/DMPHeader.h"
+#include "libs/acn/E131Inflator.h"
 #include "libs/acn/E131Header.h"
 #include "libs/acn/HeaderSet.h"
 #include "libs/acn/RootHeader.h"
@@ -71,12 +72,17 @@ static void on_cb() { g_cb++; }
 // ------------------------------------------------------------------ sACN
 // payload: sacn <ignore_preview> <registered universe> <step>,<step>,...
 // step:    dt:vec:cid:prio:seq:univ:flags:dmph:pduhex     flags: 1 preview, 2 terminated, 4 rev2
-static string run_sacn(const vector<string> &a) {
+static string run_sacn(const vector<string> &a, bool wire) {
   using namespace ola::acn;  // NOLINT
   bool ignore_preview = vh::num(a[1]) != 0;
   uint16_t reg_univ = vh::num(a[2]);
   g_now_us = T0;
   DMPE131Inflator inflator(ignore_preview);
+  // wired as in E131Node: framing-layer inflators (ratified and revision 2) in front of the merger
+  E131Inflator e131_inflator;
+  E131InflatorRev2 e131_rev2_inflator;
+  e131_inflator.AddInflator(&inflator);
+  e131_rev2_inflator.AddInflator(&inflator);
   ola::DmxBuffer out;
   uint8_t prio = 0;
   g_cb = 0;
@@ -86,23 +92,56 @@ static string run_sacn(const vector<string> &a) {
   for (size_t i = 0; i < steps.size(); i++) {
     vector<string> f = vh::split(steps[i], ':');
     g_now_us += vh::num(f[0]);
-    uint32_t vec = vh::num(f[1]);
-    uint32_t cidn = vh::num(f[2]);
+    uint32_t cidn = vh::num(wire ? f[1] : f[2]);
     uint8_t cid_bytes[16];
     memset(cid_bytes, 0, sizeof(cid_bytes));
     cid_bytes[0] = 0xc8;
     cid_bytes[12] = cidn >> 24; cid_bytes[13] = cidn >> 16; cid_bytes[14] = cidn >> 8; cid_bytes[15] = cidn;
-    unsigned flags = vh::num(f[6]);
     HeaderSet headers;
     RootHeader root;
     root.SetCid(CID::FromData(cid_bytes));
     headers.SetRootHeader(root);
-    headers.SetE131Header(E131Header("src", vh::num(f[3]), vh::num(f[4]), vh::num(f[5]),
-                                     flags & 1, flags & 2, flags & 4));
-    headers.SetDMPHeader(DMPHeader(static_cast<uint8_t>(vh::num(f[7]))));
-    vh::Exact pdu(vh::unhex(f[8]));
     g_cb = 0;
-    inflator.HandlePDUData(vec, headers, pdu.p, pdu.n);
+    if (!wire) {
+      // step: dt:vec:cid:prio:seq:univ:flags:dmph:pduhex  (constructed HeaderSet)
+      uint32_t vec = vh::num(f[1]);
+      unsigned flags = vh::num(f[6]);
+      headers.SetE131Header(E131Header("src", vh::num(f[3]), vh::num(f[4]), vh::num(f[5]),
+                                       flags & 1, flags & 2, flags & 4));
+      headers.SetDMPHeader(DMPHeader(static_cast<uint8_t>(vh::num(f[7]))));
+      vh::Exact pdu(vh::unhex(f[8]));
+      inflator.HandlePDUData(vec, headers, pdu.p, pdu.n);
+    } else {
+      // step: dt:cid:rev2:fvec:prio:seq:opts:univ:dvec:dmph:pduhex  (framing-layer bytes, real decoders)
+      bool rev2 = vh::num(f[2]) != 0;
+      uint32_t fvec = vh::num(f[3]);
+      uint16_t univ = vh::num(f[7]);
+      vector<uint8_t> body = vh::unhex(f[10]);
+      vector<uint8_t> dmp;   // DMP PDU: flags+length, vector (1 byte), header (1 byte), data
+      unsigned dlen = 2 + 1 + 1 + body.size();
+      dmp.push_back(0x70 | ((dlen >> 8) & 0x0f)); dmp.push_back(dlen & 0xff);
+      dmp.push_back(static_cast<uint8_t>(vh::num(f[8])));
+      dmp.push_back(static_cast<uint8_t>(vh::num(f[9])));
+      dmp.insert(dmp.end(), body.begin(), body.end());
+      vector<uint8_t> hdr;   // E1.31 framing header
+      const char name[] = "verif source";
+      unsigned name_len = rev2 ? 32 : 64;
+      for (unsigned k = 0; k < name_len; k++) hdr.push_back(k < sizeof(name) ? name[k] : 0);
+      hdr.push_back(static_cast<uint8_t>(vh::num(f[4])));      // priority
+      if (!rev2) { hdr.push_back(0); hdr.push_back(0); }        // reserved
+      hdr.push_back(static_cast<uint8_t>(vh::num(f[5])));      // sequence
+      if (!rev2) hdr.push_back(static_cast<uint8_t>(vh::num(f[6])));  // options
+      hdr.push_back(univ >> 8); hdr.push_back(univ & 0xff);
+      vector<uint8_t> pk;    // framing PDU: flags+length, vector (4 bytes), header, DMP block
+      unsigned flen = 2 + 4 + hdr.size() + dmp.size();
+      pk.push_back(0x70 | ((flen >> 8) & 0x0f)); pk.push_back(flen & 0xff);
+      pk.push_back(fvec >> 24); pk.push_back(fvec >> 16); pk.push_back(fvec >> 8); pk.push_back(fvec);
+      pk.insert(pk.end(), hdr.begin(), hdr.end());
+      pk.insert(pk.end(), dmp.begin(), dmp.end());
+      vh::Exact bytes(pk);
+      if (rev2) e131_rev2_inflator.InflatePDUBlock(&headers, bytes.p, bytes.n);
+      else e131_inflator.InflatePDUBlock(&headers, bytes.p, bytes.n);
+    }
     if (i) res << ";";
     res << "o" << i << "=" << g_cb << "|" << static_cast<int>(prio) << "|" << buf_hex(out);
     // internal: the tracked-source table
@@ -158,6 +197,12 @@ static string run_art(const vector<string> &a) {
     vector<string> steps = vh::split(a[2], ',');
     for (size_t i = 0; i < steps.size(); i++) {
       vector<string> f = vh::split(steps[i], ':');
+      if (f[0] == "m") {   // SetMergeMode mid-history
+        node.SetMergeMode(PORT_ID, vh::num(f[1]) ? ARTNET_MERGE_LTP : ARTNET_MERGE_HTP);
+        if (i) res << ";";
+        res << "o" << i << "=m|" << buf_hex(out);
+        continue;
+      }
       g_now_us += vh::num(f[0]);
       vector<uint8_t> data = vh::unhex(f[5]);
       unsigned lenf = vh::num(f[4]);
@@ -194,7 +239,8 @@ static string run_art(const vector<string> &a) {
 
 static string handle(const string &p) {
   vector<string> a = vh::split(p);
-  if (a[0] == "sacn") return run_sacn(a);
+  if (a[0] == "sacn") return run_sacn(a, false);
+  if (a[0] == "sacnw") return run_sacn(a, true);
   if (a[0] == "art") return run_art(a);
   if (a[0] == "consts") {
     std::ostringstream o;
